@@ -313,6 +313,9 @@ def run(pid, tier, seed):
             if len(chk.samples) < 2 and pname == "typed_dicts" and k == 3:
                 chk.sample({"pool": pname, "k": k, "rewriter": rew, "runs": len(runs), "stub": ref_out[:500]})
         module_render_correspondence(chk, drv, quick)
+        # traced_types_depend_on_the_set speaks about Model/FuncDef's shrinkTraced: tied to the real shrink_traced_types here
+        from .. import funcdef_corr
+        funcdef_corr.run(chk, drv, tbl, pd, seed, "corr.C14", 60 if quick else 2000)
         # the known-finding predicates hold of their pools in the model (so the attribution above is not blind)
         g = drv.ask(("tdNames", Q("a"), ("td", ((Q("p"), ("cls", "11")),), ())))
         g2 = drv.ask(("tdNames", Q("a"), ("td", ((Q("z"), ("cls", "13")),), ())))
